@@ -55,11 +55,11 @@ pub fn session(reqs: &[Value], pipelined: bool) -> Session {
 
 pub fn call(id: u64, tool: &str, args: Value) -> Value { json!({"jsonrpc":"2.0","id":id,"method":"tools/call","params":{"name":tool,"arguments":args}}) }
 
-fn result_text(v: &Value) -> Option<String> { v["result"]["content"][0]["text"].as_str().map(|s| s.to_string()) }
+pub fn result_text(v: &Value) -> Option<String> { v["result"]["content"][0]["text"].as_str().map(|s| s.to_string()) }
 
 pub fn run(ctx: &mut Ctx) {
     let prop = "C20";
-    ctx.ev.rule = "generated sessions of 4–14 JSON-RPC requests over the five tools and the resource methods (valid ledgers, uncovered ledgers, garbage text, wrong argument types, missing fields, unknown tools, bad currencies/months, unknown resource URIs), each run pipelined (all lines written at once, handled concurrently) and one at a time, against the real `cgt-tool mcp` process: every request id gets exactly one response (result or JSON-RPC error), no other ids appear, the server exits 0 when its input closes; the same request gives the same answer at any position, in either mode; calculate_report's JSON equals `cgt-tool report --format json` for the same text (tax years and holdings); every disposal it lists is explained by explain_matching with the legs the CLI reports (rule, exact quantity, acquisition date, cost and gain to the penny; the first session always carries a ledger whose 30-day matches cross 5 April and 31 December, and a ledger with disposals on 5 and 6 April of leap and ordinary years, 29 February and the calendar-year ends). Two sessions of 12–30 failing requests followed by good ones must answer the good ones as a fresh session does. Known-finding classes mcpUndecodable (D15) and overflowMagnitude (D9) are probed once per run and not mixed into the sessions. Non-trivial = sessions with ≥ 1 failing request followed by a succeeding one; distinct by request list.".into();
+    ctx.ev.rule = "generated sessions of 4–14 JSON-RPC requests over the five tools and the resource methods (valid ledgers, uncovered ledgers, garbage text, wrong argument types, missing fields, unknown tools, bad currencies/months, unknown resource URIs), each run pipelined (all lines written at once, handled concurrently) and one at a time, against the real `cgt-tool mcp` process: every request id gets exactly one response (result or JSON-RPC error), no other ids appear, the server exits 0 when its input closes; the same request gives the same answer at any position, in either mode; calculate_report's JSON equals `cgt-tool report --format json` for the same text (tax years and holdings); every disposal it lists is explained by explain_matching with the legs the CLI reports (rule, exact quantity, acquisition date, cost and gain to the penny; the first session always carries a ledger whose 30-day matches cross 5 April and 31 December, and a ledger with disposals on 5 and 6 April of leap and ordinary years, 29 February and the calendar-year ends). A single-year request asked after the all-years request of the same text must answer as in a fresh session and as the CLI's --year (years with and without disposals). Two sessions of 12–30 failing requests followed by good ones must answer the good ones as a fresh session does. Known-finding classes mcpUndecodable (D15) and overflowMagnitude (D9) are probed once per run and not mixed into the sessions. Non-trivial = sessions with ≥ 1 failing request followed by a succeeding one; distinct by request list.".into();
     if !cli::available() { ctx.ev.notes.push("cgt-tool binary not found: nothing checked".into()); ctx.ev.violation("correspondence", "cgt-tool binary missing".into(), "# property C20\n".into()); return; }
     let mut r = Rng::new(ctx.seed ^ 0xC20);
     let mut cfg = GenCfg::standard();
@@ -198,6 +198,31 @@ pub fn run(ctx: &mut Ctx) {
             let _ = &explain;
         }
         if si == 0 { ctx.ev.sample(json!({"session": reqs})); }
+    }
+    // an answer depends on its own arguments only: the single-year report of a ledger, asked after the all-years
+    // report of the same text, is what a fresh session (and the CLI's --year) gives — also for a year that has
+    // dividends and no disposal
+    {
+        let text = "2022-01-10 BUY ACME 100 @ 10\n2023-05-01 DIVIDEND ACME TOTAL 40 TAX 4\n2024-06-01 SELL ACME 40 @ 15\n2024-07-01 DIVIDEND ACME TOTAL 12 TAX 0\n".to_string();
+        let answer = |s: &Session, id: u64| s.responses.iter().find(|v| v["id"].as_u64() == Some(id)).map(|v| result_text(v).unwrap_or_else(|| format!("error {}", v["error"]["message"].as_str().unwrap_or(""))));
+        for y in [2023i64, 2024, 2021] {
+            ctx.ev.evaluations += 1;
+            ctx.ev.count("sessions:all-years-then-one-year");
+            let fresh = session(&[call(1, "calculate_report", json!({"transactions": text, "year": y}))], false);
+            let primed = session(&[call(1, "calculate_report", json!({"transactions": text})), call(2, "calculate_report", json!({"transactions": text, "year": y})), call(3, "calculate_report", json!({"transactions": text, "year": y}))], false);
+            let (a, b, c) = (answer(&fresh, 1), answer(&primed, 2), answer(&primed, 3));
+            if a.is_none() || a != b || a != c {
+                ctx.ev.violation("oracle", format!("calculate_report for year {y} answers differently after an all-years request for the same ledger: {} vs {}", b.as_deref().unwrap_or("no answer").chars().take(120).collect::<String>(), a.as_deref().unwrap_or("no answer").chars().take(120).collect::<String>()), format!("# property C20\n# session: calculate_report(ledger), then calculate_report(ledger, year={y}); compared with a fresh session asking only the second\n{text}"));
+            }
+            let sc = cli::Scratch::new();
+            sc.write("in.cgt", &text);
+            let o = cli::run(&sc, &["report", "in.cgt", "--year", &y.to_string(), "--format", "json"]);
+            if let (Some(ans), true) = (&a, o.code == Some(0)) {
+                let av: Value = serde_json::from_str(ans).unwrap_or_default();
+                let cv: Value = serde_json::from_slice(&o.stdout).unwrap_or_default();
+                if av["tax_years"] != cv["tax_years"] { ctx.ev.violation("oracle", format!("calculate_report for year {y} differs from `cgt-tool report --year {y} --format json`"), format!("# property C20\n{text}")); }
+            }
+        }
     }
     // a long run of failures must leave no trace: 12–30 failing requests of every kind (unparsable and empty
     // ledgers, uncovered sales, unknown disposals, wrong argument types) to calculate_report and
